@@ -89,7 +89,8 @@ static void run_wire(void)
             rng_t r; rng_seed(&r, MO.seed, mon_hash_str(ck, 31));
             uint64_t A = (uint64_t)c.k * (uint64_t)ref_word_bytes(c.be);
             uint64_t lens[40]; int nl = lengths_for(A, MO.thorough, &r, lens, 20);
-            if (MO.thorough && ci % 50 == 0) lens[nl++] = (1u << 20) - rng_below(&r, 3);
+            if (MO.thorough) for (int q = 0; q < 14; q++) lens[nl++] = rng_below(&r, 3) ? rng_below(&r, 20000) : (uint64_t)c.k * (uint64_t)ref_word_bytes(c.be) * rng_below(&r, 300) + rng_below(&r, 3);
+            if (MO.thorough && ci % 25 == 0) lens[nl++] = (1u << 20) - rng_below(&r, 3);
             for (int li = 0; li < nl; li++) {
                 int kind = (li % 3 == 2) ? 1 + (int)rng_below(&r, DATA_KINDS - 1) : DATA_RANDOM;
                 if (!mon_case("%s|legacy=%s|len=%llu|data=%s", ck, legacy_name[lm], (unsigned long long)lens[li], data_kind_name(kind))) continue;
@@ -203,7 +204,7 @@ static void run_sizes(void)
         }
         /* windows around multiples of A up to 64 KiB; powers of two +-1 up to 2^20 */
         rng_t r; rng_seed(&r, MO.seed, mon_hash_str(ck, 42));
-        int nwin = MO.thorough ? 40 : 8;
+        int nwin = MO.thorough ? 200 : 8;
         for (int w = 0; w < nwin; w++) {
             uint64_t mult = 5 + rng_below(&r, (uint32_t)(65536 / A + 1));
             uint64_t center = mult * A;
@@ -329,9 +330,9 @@ static void run_header(void)
         ctx_t x;
         if (ctx_open(&x, &c, lens, kinds, 2) == 0) {
             int n = cfg_n(&c);
-            int nfr = MO.thorough ? 3 : 1;
+            int nfr = MO.thorough ? (n < 6 ? n : 6) : 1;
             for (int fi = 0; fi < nfr; fi++) {
-                int fidx = fi == 0 ? (ci % n) : (fi == 1 ? n - 1 : 0);
+                int fidx = fi == 0 ? (ci % n) : (fi == 1 ? n - 1 : (fi == 2 ? 0 : (ci + fi * 5) % n));
                 mctx_t mc = { &x, fi % x.nstr, fidx, 0 };
                 const uint8_t *orig = x.st[mc.si].frag[fidx];
                 uint8_t h[80]; char what[160];
@@ -360,7 +361,7 @@ static void run_header(void)
                     mon_end();
                 }
                 /* (c) multi-byte edits and rewrites of version/magic/endianness, with and without re-sealing */
-                int nm = MO.thorough ? 600 : 150;
+                int nm = MO.thorough ? 3000 : 150;
                 for (int m = 0; m < nm; m += 10) {
                     if (!mon_case("%s|frag=%d|rewrites#%d", x.ck, fidx, m)) continue;
                     rng_t r; rng_case(&r);
@@ -511,7 +512,7 @@ static void run_checksum(void)
                     /* payload corruption: every single-bit flip for short payloads, bursts otherwise */
                     int f0 = (si + ci) % n;
                     uint8_t *f = malloc(s->flen);
-                    if (P <= 256) {
+                    if (P <= (MO.thorough ? 1024u : 256u)) {
                         for (uint64_t base = 0; base < P; base += 16) {
                             if (!mon_case("%s|len=%llu|frag=%d|payload-bitflips@%llu", x.ck, (unsigned long long)s->len, f0, (unsigned long long)base)) continue;
                             for (uint64_t b = base; b < base + 16 && b < P; b++) for (int bit = 0; bit < 8; bit++) {
@@ -523,7 +524,7 @@ static void run_checksum(void)
                             mon_end();
                         }
                     }
-                    int nb = MO.thorough ? 120 : 30;
+                    int nb = MO.thorough ? 1500 : 30;
                     if (mon_case("%s|len=%llu|frag=%d|payload-bursts", x.ck, (unsigned long long)s->len, f0)) {
                         rng_t r; rng_case(&r);
                         for (int q = 0; q < nb && P > 0; q++) {
